@@ -24,6 +24,7 @@ import (
 //   - it answers the request it is delivered for (Count echoes the request's count),
 //   - the ranges of all answers (count consecutive values ending at the returned one) are pairwise disjoint,
 //   - on one stream the answers increase (each request is sent after the previous answer arrived).
+//
 // Runs in the background; returns the function that enters its findings into the result.
 func forwardPhase(prop string) func(R *res.Result) {
 	type viol struct {
